@@ -21,21 +21,22 @@ import (
 var freeTables = []tableSpec{{"t1", "wide"}, {"t2", "narrow"}, {"t3", "twoloc"}, {"t4", "ge"}}
 
 type freeResult struct {
-	Run       int     `json:"run"`
-	Inserters int     `json:"inserters"`
-	Flusher   bool    `json:"flusher"`
-	Batch     int     `json:"batch"`
-	Procs     int     `json:"procs"`
-	Entries   int     `json:"entries"`
-	Late      int     `json:"late_tables"` // tables created by the first inserter in mid-run
-	Flushes   int     `json:"flushes"`     // transactions begun (seen at the hook)
-	Overlap   bool    `json:"overlap"`     // a call of one goroutine overlapped a flush of another (log order)
-	Crashed   bool    `json:"crashed"`
-	PanicMsg  string  `json:"panic_msg,omitempty"`
-	PanicIn   string  `json:"panic_in,omitempty"`
-	Verdict   verdict `json:"verdict"`
-	Sample    string  `json:"sample,omitempty"`
-	Millis    int64   `json:"ms"`
+	Run        int     `json:"run"`
+	Inserters  int     `json:"inserters"`
+	Flusher    bool    `json:"flusher"`
+	Batch      int     `json:"batch"`
+	Procs      int     `json:"procs"`
+	Entries    int     `json:"entries"`
+	EmptyFirst bool    `json:"empty_location_first"`
+	Late       int     `json:"late_tables"` // tables created by the first inserter in mid-run
+	Flushes    int     `json:"flushes"`     // transactions begun (seen at the hook)
+	Overlap    bool    `json:"overlap"`     // a call of one goroutine overlapped a flush of another (log order)
+	Crashed    bool    `json:"crashed"`
+	PanicMsg   string  `json:"panic_msg,omitempty"`
+	PanicIn    string  `json:"panic_in,omitempty"`
+	Verdict    verdict `json:"verdict"`
+	Sample     string  `json:"sample,omitempty"`
+	Millis     int64   `json:"ms"`
 }
 
 type freeOpts struct {
@@ -91,6 +92,7 @@ func runFree(run int, o freeOpts, dir string, rng *rand.Rand) (out []map[string]
 	base := filepath.Join(dir, fmt.Sprintf("f%d-%d", run, fileSeq.Add(1)))
 	file := base + ".sqlite3"
 	defer os.Remove(file)
+	defer closeRaw()
 	res.Procs = []int{1, 2, 4, 16}[rng.Intn(4)]
 	defer runtime.GOMAXPROCS(runtime.GOMAXPROCS(res.Procs))
 	res.Batch = []int{1, 2, 3, 5, 17, 100, 100000}[rng.Intn(7)]
@@ -151,6 +153,8 @@ func runFree(run int, o freeOpts, dir string, rng *rand.Rand) (out []map[string]
 	progs := make([][]item, res.Inserters)
 	id := 0
 	gopt := genOpts{rich: o.Rich, above63: o.Above63, nlocs: 1 + rng.Intn(40)}
+	emptyFirst := rng.Intn(3) > 0
+	res.EmptyFirst = emptyFirst
 	for i := range progs {
 		n := 1 + rng.Intn(o.MaxPer)
 		for j := 0; j < n; j++ {
@@ -158,6 +162,9 @@ func runFree(run int, o freeOpts, dir string, rng *rand.Rand) (out []map[string]
 			ti := rng.Intn(len(freeTables))
 			t := freeTables[ti]
 			e := gen(rng, t.Shape, id, gopt)
+			if emptyFirst && (j == 0 || rng.Intn(12) == 0) {
+				e = emptyLocs(e) // every goroutine starts with the empty location string; it comes back later
+			}
 			loc := "-"
 			if ls := locsOf(e); len(ls) > 0 {
 				loc = token(ls[0])
@@ -350,18 +357,19 @@ func runFree(run int, o freeOpts, dir string, rng *rand.Rand) (out []map[string]
 // ---- sequential round trips of values and flush patterns (one goroutine)
 
 type valueResult struct {
-	Case     string  `json:"case"`
-	Shape    string  `json:"shape"`
-	Class    string  `json:"class"`
-	Batch    int     `json:"batch"`
-	Entries  int     `json:"entries"`
-	Pattern  string  `json:"pattern"`
-	Late     bool    `json:"late_tables"` // t2 and t3 are created after earlier inserts (and mostly after a flush)
-	Rejected bool    `json:"rejected"`    // CreateTable refused the shape: its kinds are not "allowed"
-	Crashed  bool    `json:"crashed"`
-	PanicMsg string  `json:"panic_msg,omitempty"`
-	Verdict  verdict `json:"verdict"`
-	Sample   string  `json:"sample,omitempty"`
+	Case       string  `json:"case"`
+	Shape      string  `json:"shape"`
+	Class      string  `json:"class"`
+	Batch      int     `json:"batch"`
+	Entries    int     `json:"entries"`
+	Pattern    string  `json:"pattern"`
+	EmptyFirst bool    `json:"empty_location_first"` // the first entry (and a later one) has the empty string as its location
+	Late       bool    `json:"late_tables"`          // t2 and t3 are created after earlier inserts (and mostly after a flush)
+	Rejected   bool    `json:"rejected"`             // CreateTable refused the shape: its kinds are not "allowed"
+	Crashed    bool    `json:"crashed"`
+	PanicMsg   string  `json:"panic_msg,omitempty"`
+	Verdict    verdict `json:"verdict"`
+	Sample     string  `json:"sample,omitempty"`
 }
 
 func runValues(k int, shape, class string, batch int, pattern string, late bool, n int, dir string, rng *rand.Rand) (res valueResult) {
@@ -369,6 +377,7 @@ func runValues(k int, shape, class string, batch int, pattern string, late bool,
 	base := filepath.Join(dir, fmt.Sprintf("v%d-%d", k, fileSeq.Add(1)))
 	file := base + ".sqlite3"
 	defer os.Remove(file)
+	defer closeRaw()
 	var rec dr.DataRecorder
 	defer func() {
 		if r := recover(); r != nil {
@@ -418,12 +427,18 @@ func runValues(k int, shape, class string, batch int, pattern string, late bool,
 	dr.VerifSetBatchSize(rec, batch)
 	inserted := map[string][]any{}
 	gopt := genOpts{rich: true, nlocs: 1 + rng.Intn(len(strPool)+5)}
+	emptyFirst := k%3 != 0
+	again := 2 + rng.Intn(n)
+	res.EmptyFirst = emptyFirst
 	for i := 1; i <= n; i++ {
 		if createAt[i] {
 			createNext()
 		}
 		ti := rng.Intn(made)
 		e := gen(rng, tables[ti].Shape, i, gopt)
+		if emptyFirst && (i == 1 || i == again || (createAt[i] && late)) {
+			e = emptyLocs(e) // the empty string is interned first (before any other location), and later again
+		}
 		if w, ok := e.(Wide); ok {
 			switch class {
 			case "uint64_above_int64":
